@@ -45,6 +45,12 @@ CHECKS = {
     'C07': dict(tech='theorem T5 model-checked by TLC on every generated (graph, T) (errors/chi2 invariant, b and H equivariant under the block change of coordinates: identity on poses, R_T on points); code conformance at g and at T*g against that one exact step (binding A); two-run lock-step code-vs-code for k=1..5',
                 text='TLC left-composes every vertex of a lattice graph with a lattice rigid motion T inside the specification and checks exactly that all edge errors and chi^2 forms are unchanged and that gradient and Hessian are those of the original graph up to the rotation of point-vertex coordinates; the real optimizer step at g and at T*g (vertices built from the exact transformed poses) must both equal the exact step. Beyond the first step, optimize(tol=0,max_iter=k), k=1..5, on g and T*g (generic float T, |t| up to 1e6, rotations near 180 degrees) must stay in lock-step.',
                 ref='4 C07', note=L1 + ' Later iterates are compared code-vs-code (L2); T is applied to real graphs with the library (+) (decided by C09). Absolute (prior) custom edges are not frame-invariant and are excluded.'),
+    'C13': dict(tech='G2O.tla: Export layout and Parse over number/id symbols, round-trip theorem T9 checked by TLC on every generated abstract graph; written file compared token by token (float(token) bitwise) and re-imported graph compared position by position (binding A)',
+                text='The specification fixes the token layout per tag, the row-major upper triangle, the line order, and which positions the reader may re-wrap or re-normalise; TLC computes Export(g) and checks Parse(Export(g)) = g for each abstract graph projected from a random real graph (extreme magnitudes, -0.0, ids negative and > 2^40, w<0 quaternions, shuffled lists, offset parameters by id). The file written by the code must be Export(g) exactly, the re-imported graph must equal the original bitwise except at the marked positions (4 ulp), chi^2 must agree, 2..5 cycles, and inexpressible content must raise.',
+                ref='4 C13', note='Offset parameters are attached through Graph._g2o_params (the only interface the library has). Landmark edges whose offset id is absent from the registry are outside the domain.'),
+    'C14': dict(tech='G2O.tla: ParseLine dispatch (vertex, registered custom types, odometry, landmark, parameters, else warn) folded over abstract files; TLC evaluates Parse(file); rendered text files loaded by every entry point and compared object by object (binding A)',
+                text='Abstract files mixing all tags, two registered custom edge types, duplicate parameter ids, blank / comment / junk / near-miss lines in any legal order are rendered with random exact spellings of every float64, extra and trailing spaces, LF or CRLF; the loaded graph must be Parse(file): objects in file order, numbers bitwise (wrap / normalisation only where the specification says), symmetric information expansion, offsets resolved through the registry, one warning per unrecognised non-blank line; Graph.from_g2o and the five deprecated loaders must agree.',
+                ref='4 C14', note='Tabs as separators and inf/nan literals are outside the quantifier. For blank lines no warning is demanded (the code skips them silently; both readings of the property accept that).'),
 }
 NA_REASON = 'check not built yet in this round (planned, see DESIGN.md section 4)'
 
